@@ -180,7 +180,8 @@ Definition check_limits (now : Z) (nem : list bool) (s : state) : state :=
 (* ---- store ----
    fault: what the allocator does during this call.
      FNone             no std::bad_alloc, size <= size_limit()
-     FDropBefore       bad_alloc while copying the value (first try block): nothing happens
+     FDropBefore       bad_alloc while copying the value (first try block): the catch block calls
+                       remove(key) and returns - the superseded entry goes, nothing is stored
      FDropAfterDelete  the test size > size_limit() fires after the old entry was deleted
      FClear b          bad_alloc inside the second try block: nl_clear(); b tells whether it was thrown
                        after the statement generation++ had been executed *)
@@ -199,7 +200,7 @@ Definition bump (g : option N) (n : N) : N := match g with Some _ => n | None =>
 Definition store (now : Z) (k : key) (v : list N) (tin : list key) (d : Z) (g : option N)
                  (f : fault) (nem : list bool) (s : state) : state :=
   match f with
-  | FDropBefore => s
+  | FDropBefore => delete_node k s                                (* catch(std::bad_alloc) { remove(key); return; } *)
   | _ =>
     let s1 := delete_node k s in                                  (* if(main!=primary.end()) delete_node(main) *)
     match f with
